@@ -162,7 +162,7 @@ def check_combinators(fx, rep, rule):
         s_ = mk_payload(u, "Ok", "0")
         if conv is None:
             return ok(("tuple", (s_, rest)))
-        pv = call("core::str::parse", s_)
+        pv = call("core::str::parse::<usize>", s_)
         if not o(("is", pv, "Ok")):
             return perr(sl, ERRK)
         return ok(("tuple", (mk_payload(pv, "Ok", "0"), rest)))
@@ -709,3 +709,20 @@ def check_try_parse(fx, rep, rule):
     bad, n = fc.compare_paths(res, ref, lambda st, out: out[1])
     R1.report_cmp(rep, rule, "%s/try_parse" % rule, fx.bodies[p], res, bad,
                   "(Err, _) -> Err; (Ok, rest) with bytes left -> Err{line: whole input}; else Ok(record)")
+
+
+def check_parser_premises(fx, rep, rule):
+    """the whole line-parser rule set as a premise of a property that quantifies over 'well-formed mapping files':
+    dispatcher, the three line grammars, line-terminator set, combinators (incl. split_line / blank-line skipping),
+    the record iterator. Returns the number of grammar success paths."""
+    check_dispatch(fx, rep, rule)
+    sks = {}
+    sks["member"] = check_member_parser(fx, rep, rule)
+    sks["class"] = check_class_parser(fx, rep, rule)
+    sks["header"] = check_header_parser(fx, rep, rule)
+    is_newline_set(fx, rep, rule)
+    check_combinators(fx, rep, rule)
+    check_iterator(fx, rep, rule)
+    n = sum(len(v or []) for v in sks.values())
+    rep.floor(rule, n, 18, "success paths of the three line parsers (14 member + 1 class + 3 header)")
+    return n
